@@ -596,7 +596,8 @@ class Expression:
 
     def load(self, dst, src, offset, fmt, long):
          self.ebpf.append(Opcode.LD + fmt_to_opcode(fmt), dst, src, offset, 0)
-         if isinstance(fmt, str) and (fmt in "hb" or long and fmt == 'i'):
+         if isinstance(fmt, str) and (fmt[-1:] in ("h", "b")
+                                      or long and fmt[-1:] == 'i'):
              shift = (64 if long else 32) - calcsize(fmt) * 8
              regs = self.ebpf.sr if long else self.ebpf.sw
              regs[dst] = (regs[dst] << shift) >> shift
